@@ -76,6 +76,8 @@ def check_merge(db, chk, rule: str) -> None:
         accepted = [T.win("cumsum", (), T.cmp(op, TS, prev), S) for op in (">", ">=")]
         check_term(chk, rule, "group id = cumsum(ts >(=) running max of previous ends)", where, G, accepted,
                    "without cummax [0,10],[1,2],[5,6] counts 11; shift(-1) or a reversed comparison splits overlapping kernels")
+        if G in accepted and S in acc_S and end_t[2] == END:
+            validate_template(chk, rule, K, ts_t, end_t, where)
     # slot 5: output order
     o = R.order
     ordered = (o is None and getattr(R, "gb_sorted", True) is True) or (isinstance(o, tuple) and o[0] == "sort" and o[1] == (ts_t,) and o[2] is True)
@@ -84,6 +86,53 @@ def check_merge(db, chk, rule: str) -> None:
     cn = R.colnames()
     chk.ob(rule, "result has exactly the columns ts and end (+none that a melt would sweep)", cn is not None and sorted(cn) == ["end", "ts"], where,
            found=cn, accepted=["ts", "end"], why="kernel-type and overlap sweeps melt *all* columns of the merged frame into +/- markers")
+
+
+def _union_measure(iv):
+    """brute-force measure of a union of integer-endpoint intervals: count the unit cells covered"""
+    cells = set()
+    for a, b in iv:
+        cells.update(range(a, b))
+    return len(cells)
+
+
+def validate_template(chk, rule: str, K, ts_t, end_t, where: str) -> None:
+    """The accepted instantiation (the terms read out of the code, which equal the template) is interpreted by
+    core.termeval on EVERY family of <= N intervals with integer endpoints on a small grid, in every input order,
+    and compared with the brute-force union: total measure equal, merged intervals pairwise interior-disjoint and
+    ordered, every input interval inside one merged interval.  This validates the template itself (and the term
+    laws used to normalise it), not the code: the code is tied to the template by term equality above."""
+    import itertools
+    import os
+    from ..core import termeval as E
+    n_max = 4 if os.environ.get("VERIF_TIER") == "thorough" else 3
+    grid = [(a, d) for a in range(4) for d in range(4)]
+    cases = bad = 0
+    first_bad = None
+    try:
+        for n in range(1, n_max + 1):
+            for fam in itertools.product(grid, repeat=n):
+                E.reset()
+                tab = E.Table(K, [{"ts": a, "dur": d} for a, d in fam])
+                lo, hi = E.group_agg(ts_t, tab), E.group_agg(end_t, tab)
+                merged = sorted((lo[k], hi[k]) for k in lo)
+                iv = [(a, a + d) for a, d in fam]
+                ok = set(lo) == set(hi)
+                ok = ok and sum(b - a for a, b in merged) == _union_measure(iv)
+                ok = ok and all(merged[i][1] <= merged[i + 1][0] for i in range(len(merged) - 1))
+                ok = ok and all(any(a >= x and b <= y for x, y in merged) for a, b in iv)
+                ok = ok and [m for _, m in sorted(lo.items())] == [m[0] for m in merged]          # group ids increase with start
+                cases += 1
+                if not ok:
+                    bad += 1
+                    first_bad = first_bad or (fam, merged)
+    except E.Unsupported as e:
+        chk.ob(rule, "template validated on all small interval families", None, where, why=f"term evaluator: {e}")
+        return
+    chk.ob(rule, f"template validated against the brute-force union on all {cases} families of <= {n_max} intervals (grid 0..3 x 0..3, every order)",
+           bad == 0, where, found=f"{bad} disagreeing families" + (f", first {first_bad}" if first_bad else ""), accepted="0 disagreeing families",
+           why="the interval-union template must itself compute the measure of the union")
+    chk.analysed_add("template_cases", f"merge:{cases}")
 
 
 class MergeHook:
